@@ -2,6 +2,15 @@
 // Server.Do, every handler, the broker, net/http, crypto/tls, sstls and its
 // certificate cache) inside a synctest bubble over the in-memory network, with
 // the harness playing operator, clients, disk and main's wiring.
+//
+// Besides the histories of boots, /c requests and shell sessions it has: output
+// floods sent right behind a request, before the handler has run (extra.go);
+// clients that reset the connection before the handler has run, and a reading
+// of the server's JSON log that accounts for every stream handed to a shell
+// endpoint (C11, extra.go); a template path that is a symbolic link which gets
+// re-pointed; a cache file with one base64 character changed between boots;
+// and, outside any bubble, a bounded stress test of /c with real goroutines
+// (hammer.go).
 package hsrvsim
 
 import (
@@ -45,6 +54,9 @@ type Config struct {
 	Steps   int    `json:"steps"`
 	// CoarseDisk: every version of the template file gets the same modification time
 	CoarseDisk bool `json:"coarse_disk,omitempty"`
+	// HammerMS > 0: not a simulation but the stress test of hammer.go
+	HammerMS  int `json:"hammer_ms,omitempty"`
+	HammerPar int `json:"hammer_par,omitempty"`
 }
 
 // Action is one macro-step stimulus.
@@ -77,6 +89,19 @@ type Action struct {
 	Pre   bool   `json:"pre,omitempty"` // use a connection made earlier instead of dialling
 	B     []byte `json:"b,omitempty"`
 	Ms    int    `json:"ms,omitempty"`
+	// output flood: Flood KiB of numbered output in HTTP chunks of Piece KiB
+	// (open_io/open_out: sent right behind the request, before the handler
+	// has run; out: sent on the live session's upload)
+	Flood int `json:"flood,omitempty"`
+	Piece int `json:"piece,omitempty"`
+	// Early: the client resets the connection right after its request, before
+	// the handler has run (open_in/open_out/open_io)
+	Early bool `json:"early,omitempty"`
+	// Via "link": the template path is a symbolic link which is re-pointed at
+	// a new file (tmpl); "" writes a regular file at the path itself
+	Via string `json:"via,omitempty"`
+	// damage_cache: one base64 character changed (xor Mask on its 6-bit value)
+	Mask int `json:"mask,omitempty"`
 }
 
 func (a Action) String() string {
@@ -120,6 +145,8 @@ type session struct {
 	io             *client
 	sentOut        []byte // bytes sent on the output stream
 	plainFrom      int
+	shown          []byte // plain output displayed since plainFrom, up to line shownTo
+	shownTo        int
 	closed         bool
 	closing        bool
 	readyAtOpen    int
@@ -186,6 +213,26 @@ type sim struct {
 	pre        []*client // connections made (TLS handshake done) but not yet used for a request
 	holdC      bool      // hold handlers at the first write of a /c answer
 	wparks     []*wpark
+
+	floods     int  // output floods sent in this run
+	holdEntry  bool // hold the next shell-endpoint handler before it starts
+	eparks     []*wpark
+	reqs       []*reqRec // every request the server's handler was given
+	stopping   bool      // the harness has begun to stop the current boot
+	flushFails int64     // response flushes of shell endpoints that failed
+	logRecs    []logRec
+	cacheOrig  []byte // the cache file as its creator left it (while a damaged copy is on disk)
+	cacheBad   bool   // the cache file on disk is a damaged copy
+	cacheChain bool   // the cache file was installed by the operator (leaf + CA)
+}
+
+// reqRec is what the wrapper around the server's handler knows of one request.
+type reqRec struct {
+	remote     string
+	pattern    string // route the mux chose (known once the handler has returned)
+	duringStop bool   // arrived after the harness began to stop the boot
+	returned   bool
+	judged     bool
 }
 
 type lockedBuf struct {
@@ -221,6 +268,23 @@ func (s *sim) flushObs(act string) {
 	}
 	// what several connections do within one step has no order of its own
 	sort.Strings(s.stepObs)
+	if len(s.stepObs) > 16 {
+		// (a flood of output is hundreds of equal entries)
+		out := s.stepObs[:0:0]
+		for i := 0; i < len(s.stepObs); {
+			j := i
+			for j < len(s.stepObs) && s.stepObs[j] == s.stepObs[i] {
+				j++
+			}
+			if j-i > 1 {
+				out = append(out, fmt.Sprintf("%s x%d", s.stepObs[i], j-i))
+			} else {
+				out = append(out, s.stepObs[i])
+			}
+			i = j
+		}
+		s.stepObs = out
+	}
 	s.trace = append(s.trace, fmt.Sprintf("step %d t=%dms %s :: %s", s.step, s.nowNanos()/1e6, act, strings.Join(s.stepObs, " ; ")))
 	s.stepObs = s.stepObs[:0]
 }
@@ -305,10 +369,58 @@ func (p *parkWriter) Flush() {
 }
 func (p *parkWriter) FlushError() error {
 	if f, ok := p.ResponseWriter.(interface{ FlushError() error }); ok {
-		return f.FlushError()
+		err := f.FlushError()
+		if err != nil && isShellPath(p.path) {
+			p.s.mu.Lock()
+			p.s.flushFails++
+			p.s.mu.Unlock()
+		}
+		return err
 	}
 	p.Flush()
 	return nil
+}
+
+func isShellPath(p string) bool {
+	return strings.HasPrefix(p, "/i/") || strings.HasPrefix(p, "/o/") || p == "/io" || strings.HasPrefix(p, "/io/")
+}
+
+// enterRequest notes a request and, if the simulator asked for it, holds a
+// shell-endpoint request before its handler starts.
+func (s *sim) enterRequest(r *http.Request) *reqRec {
+	rec := &reqRec{remote: r.RemoteAddr}
+	s.mu.Lock()
+	rec.duringStop = s.stopping
+	s.reqs = append(s.reqs, rec)
+	if !s.holdEntry || !isShellPath(r.URL.Path) {
+		s.mu.Unlock()
+		return rec
+	}
+	s.holdEntry = false
+	w := &wpark{remote: r.RemoteAddr, ch: make(chan struct{})}
+	s.eparks = append(s.eparks, w)
+	s.mu.Unlock()
+	<-w.ch
+	return rec
+}
+
+func (s *sim) leaveRequest(rec *reqRec, r *http.Request) {
+	s.mu.Lock()
+	rec.pattern = r.Pattern
+	rec.returned = true
+	s.mu.Unlock()
+}
+
+// releaseEntries lets every held handler go.
+func (s *sim) releaseEntries() {
+	s.mu.Lock()
+	s.holdEntry = false
+	parks := s.eparks
+	s.eparks = nil
+	s.mu.Unlock()
+	for _, p := range parks {
+		close(p.ch)
+	}
 }
 
 type wpark struct {
@@ -332,13 +444,19 @@ func installServerHook() {
 	hookOnce.Do(func() {
 		hsrv.VerifServerHook = func(hs *http.Server) {
 			curMu.Lock()
-			s := curSim
+			s, cap := curSim, capture
 			curMu.Unlock()
+			if cap != nil {
+				cap(hs.Handler)
+				return
+			}
 			if s == nil {
 				return
 			}
 			inner := hs.Handler
 			hs.Handler = http.HandlerFunc(func(w http.ResponseWriter, r *http.Request) {
+				rec := s.enterRequest(r)
+				defer s.leaveRequest(rec, r)
 				inner.ServeHTTP(&parkWriter{ResponseWriter: w, s: s, path: r.URL.Path, remote: r.RemoteAddr}, r)
 			})
 		}
@@ -363,7 +481,16 @@ func (Engine) Run(t *testing.T, job *simkit.Job, rng *simkit.RNG, idx int64, c *
 			s.script2 = append(s.script2, a)
 		}
 	} else {
+		if job.Mode == "search" && job.Property == "C07" && job.Args["profile"] == "" && idx%hammerEvery == hammerEvery/2 {
+			return hammer(job, Config{Profile: "C07", HammerMS: 1500, HammerPar: 16})
+		}
 		s.cfg = genConfig(job, rng)
+	}
+	if s.cfg.HammerMS > 0 {
+		if s.cfg.HammerMS > 10000 || s.cfg.HammerPar < 1 || s.cfg.HammerPar > 64 {
+			return &simkit.Outcome{Invalid: true}
+		}
+		return hammer(job, s.cfg)
 	}
 	runSerial++
 	base := job.Scratch
@@ -396,6 +523,9 @@ func (Engine) Run(t *testing.T, job *simkit.Job, rng *simkit.RNG, idx int64, c *
 	curMu.Lock()
 	curSim = nil
 	curMu.Unlock()
+	if s.flushFails > 0 {
+		s.probes["shell_response_flush_failed"] += s.flushFails
+	}
 	o := &simkit.Outcome{Invalid: s.invalid, Steps: int64(s.step), SimNanos: s.simNanos(), Faults: s.faults, Probes: s.probes,
 		NonTrivial: s.nontrivial, Violations: s.found, Trace: s.trace, HarnessErr: s.harnessErr}
 	cb, _ := json.Marshal(s.cfg)
@@ -450,9 +580,16 @@ func (s *sim) main() {
 		s.apply(a)
 		s.settle()
 		s.check(a)
+		s.checkLog()
 		s.flushObs(a.String())
 	}
 	s.shutdownAll()
+	if len(s.found) == 0 && s.harnessErr == "" {
+		s.checkLog()
+	}
+	if len(s.stepObs) > 0 {
+		s.flushObs("end")
+	}
 	simEnd = s.nowNanos()
 }
 
@@ -533,6 +670,15 @@ func (s *sim) canon(t string) string {
 	for i, id := range s.idOrder {
 		t = strings.ReplaceAll(t, id, fmt.Sprintf("ID#%d", i))
 	}
+	for i, id := range s.idOrder {
+		// the variants refused attempts are made with: other case, cut short
+		if sc := swapCase(id); sc != id {
+			t = strings.ReplaceAll(t, sc, fmt.Sprintf("ID#%d^", i))
+		}
+		if len(id) > 8 {
+			t = strings.ReplaceAll(t, id[:len(id)-1], fmt.Sprintf("ID#%d<", i))
+		}
+	}
 	t = strings.ReplaceAll(t, s.dir, "$S")
 	// script IDs the harness never got to see (random base-36 words): mask
 	// every word of that shape, in the log only
@@ -569,9 +715,21 @@ func (s *sim) doBoot(a Action) {
 	sl := slog.New(slog.NewJSONHandler(s.logBuf, &slog.HandlerOptions{Level: slog.LevelDebug}))
 	svr, err := hsrv.New(sl, a.Listen, fdir, tmplf, s.ich, s.och, iob, cert, a.CB, a.IPv6, a.OneShell)
 	if err != nil {
+		if a.Cache && s.cacheBad {
+			// the clean way to deal with a damaged cache: refuse to start
+			s.obs("boot refused")
+			s.probes["boot_refused_with_damaged_cache"]++
+			return
+		}
 		s.harnessErr = fmt.Sprintf("hsrv.New(%q) failed although nothing was faulted: %v", a.Listen, err)
 		return
 	}
+	if a.Cache && s.cacheBad {
+		s.probes["boot_accepted_damaged_cache"]++
+	}
+	s.mu.Lock()
+	s.stopping = false
+	s.mu.Unlock()
 	b.svr = svr
 	b.advert = hsrv.VerifFingerprint(svr)
 	if err := hsrv.VerifSwapNetListener(svr, func(inner net.Listener) net.Listener {
@@ -643,6 +801,9 @@ func (s *sim) doStop() {
 			s.probes["one_shell_finished_by_itself"]++
 		}
 	}
+	s.mu.Lock()
+	s.stopping = true
+	s.mu.Unlock()
 	b.cancel()
 	b.stopped = true
 	for i := 0; i < 40; i++ {
@@ -663,6 +824,7 @@ func (s *sim) doStop() {
 }
 
 func (s *sim) shutdownAll() {
+	s.releaseEntries()
 	if s.boot != nil {
 		s.doStop()
 	}
